@@ -316,6 +316,25 @@ fn strat() -> BoxedStrategy<Poly> {
   prop_oneof![7 => strat_generic(), 1 => strat_near_limit()].boxed()
 }
 
+/// every vertex is strictly on the inner side of every edge it does not belong to (margin 1e-7 R)
+fn is_convex_around(verts: &[(f64, f64)], lon_c: f64, lat_c: f64, r: f64) -> bool {
+  let k = verts.len();
+  let cc = V3::from_lonlat(lon_c, lat_c);
+  let vv: Vec<V3> = verts.iter().map(|&(l, b)| V3::from_lonlat(l, b)).collect();
+  for i in 0..k {
+    let mut nn = vv[i].cross(&vv[(i + 1) % k]).normalized();
+    if nn.dot(&cc) < 0.0 {
+      nn = nn.scale(-1.0);
+    }
+    for (j, w) in vv.iter().enumerate() {
+      if j != i && j != (i + 1) % k && w.dot(&nn) < 1e-7 * r {
+        return false;
+      }
+    }
+  }
+  true
+}
+
 fn strat_generic() -> BoxedStrategy<Poly> {
   let r = (-4.0f64..-0.0969).prop_map(|u| (10.0f64).powf(u));
   (r, gens::position_principal(), 3usize..=12, any::<bool>(), any::<bool>(), any::<bool>(), 0usize..12)
@@ -334,9 +353,9 @@ fn strat_generic() -> BoxedStrategy<Poly> {
         prop::collection::vec((0.0f64..1.0, 0.0f64..(2.0 * PI)), 12..24),
         prop::collection::vec((0.0f64..(2.0 * PI), -1.0f64..=1.0), 4..8),
         prop::collection::vec((0usize..12, prop_oneof![3 => -2.5f64..2.5, 1 => -40.0f64..40.0]), 4..10),
-        prop_oneof![2 => Just(0u8), 1 => 1u8..=4],
+        (prop_oneof![2 => Just(0u8), 1 => 1u8..=4], prop_oneof![3 => Just(0u8), 1 => 1u8..=4]),
       )
-        .prop_map(move |(jit, rad, rho, az0, depth, probes, far, meridian, snap)| {
+        .prop_map(move |(jit, rad, rho, az0, depth, probes, far, meridian, (snap, eqlat))| {
           let mut verts: Vec<(f64, f64)> = (0..k)
             .map(|i| {
               let az = az0 + (i as f64 + amp * jit[i]) * 2.0 * PI / k as f64;
@@ -372,11 +391,29 @@ fn strat_generic() -> BoxedStrategy<Poly> {
               }
             }
           }
+          // optionally give two or three consecutive vertices bit-equal latitudes (what a lon/lat box or a
+          // hand-typed trapezoid has): the great-circle edge between them is not the parallel
+          let mut kind = String::new();
+          if eqlat > 0 && convex {
+            let backup = verts.clone();
+            let i0 = (eqlat as usize * 7 + rot) % k;
+            let n_eq = if eqlat >= 3 { 2 } else { 1 };
+            for t in 1..=n_eq {
+              let lat0 = verts[i0].1;
+              verts[(i0 + t) % k].1 = lat0;
+            }
+            // kept only if the polygon is still convex around c (the reference needs it)
+            if is_convex_around(&verts, lon_c, lat_c, r) {
+              kind = "equal_latitudes".into();
+            } else {
+              verts = backup;
+            }
+          }
           if reverse {
             verts.reverse();
           }
           verts.rotate_left(rot % k);
-          Poly { depth, exact, lon_c, lat_c, r, convex, verts, probes, far: far.into_iter().map(|(l, z)| (l, z.asin())).collect(), meridian, kind: String::new() }
+          Poly { depth, exact, lon_c, lat_c, r, convex, verts, probes, far: far.into_iter().map(|(l, z)| (l, z.asin())).collect(), meridian, kind }
         })
     })
     .boxed()
